@@ -167,7 +167,7 @@ func (r *Run) runOp(w *World, op string, plan []simdisk.Fault, spec SchedSpec, f
 				switch x.(type) {
 				case simdisk.CrashPanic:
 					res.Crashed = true
-				case violationPanic:
+				case violationPanic, knownStop:
 					panic(x)
 				default:
 					res.Panic = fmt.Sprintf("%v\n%s", x, trimStack(debug.Stack()))
